@@ -180,6 +180,12 @@ func (g *brokerGen) connect() {
 	}
 	g.lastConnect[cid] = rest
 	g.takenOver(cid)
+	if r.Intn(9) == 0 {
+		// the peer has gone when the broker wants to answer: the CONNACK cannot be written.  The
+		// take-over has happened and the session was looked up (or created); there is no connection
+		g.emit("failfirst %d %s", id, rest)
+		return
+	}
 	if r.Intn(12) == 0 {
 		// a packet pipelined behind the CONNECT, before the CONNACK has been read
 		switch r.Intn(3) {
@@ -256,7 +262,11 @@ func (g *brokerGen) badConnect() {
 		}
 		g.live = append(g.live, &bConn{id: id, cid: cid})
 	}
-	g.emit("first %d connect %s %d %d %d %s %d %d %s ~ ~ 30 %d", id, hexStr(pn), ver, rsv, clean, will, wq, wr, hexStr(cid), auth)
+	verb := "first"
+	if !(pn == "MQIsdp" && ver == 3) && r.Intn(8) == 0 {
+		verb = "failfirst" // the refusal cannot be written either
+	}
+	g.emit("%s %d connect %s %d %d %d %s %d %d %s ~ ~ 30 %d", verb, id, hexStr(pn), ver, rsv, clean, will, wq, wr, hexStr(cid), auth)
 	// whether it was accepted is not tracked precisely: only the valid 3.1 pair is
 	if !(pn == "MQIsdp" && ver == 3 && rsv == 0 && will == "~" && wq == 0 && wr == 0 && auth == 1 && cid != "" && len(cid) < 33 && !strings.ContainsAny(cid, "\x01\xc3\x7f\x1f")) {
 		if n := len(g.live); n > 0 && g.live[n-1].id == id {
